@@ -348,6 +348,7 @@ pub enum AliasSyntaxError {
     OutsideBrackets     (AliasKind, LineNum, Pos),
     NestedBrackets      (AliasKind, LineNum, Pos),
     WrongModTone        (AliasKind, LineNum, Pos),
+    ToneTooBig          (AliasKind, LineNum, Pos),
     EmptyInput          (AliasKind, LineNum, Pos),
     UnknownEnbyFeature  (String, AliasPosition),
     UnknownFeature      (String, AliasPosition),
@@ -387,6 +388,7 @@ impl ASCAError for AliasSyntaxError {
             Self::OutsideBrackets     (..) => "Features must be inside square brackets".to_string(),
             Self::NestedBrackets      (..) => "Cannot have nested brackets of the same type".to_string(),
             Self::WrongModTone        (..) => "Tones cannot be ±; they can only be used with numeric values.".to_string(),
+            Self::ToneTooBig          (..) => "A tone modifier cannot be more than 4 digits long".to_string(),
             Self::EmptyInput          (..) => "Alias input cannot be empty.".to_string(),
             Self::UnknownEnbyFeature  (feat, pos) => format!("Feature '{feat}' has no modifier @ {}.", pos),
             Self::UnknownFeature      (feat, pos) => format!("Unknown feature '{feat}' @ {}'. Did you mean {}? ", pos, get_feat_closest(feat)),
@@ -425,6 +427,7 @@ impl ASCAError for AliasSyntaxError {
             Self::OutsideBrackets        (kind, line, pos) |
             Self::NestedBrackets         (kind, line, pos) |
             Self::WrongModTone           (kind, line, pos) |
+            Self::ToneTooBig             (kind, line, pos) |
             Self::EmptyInput             (kind, line, pos) => (
                 " ".repeat(*pos) + "^" + "\n", 
                 *kind,
